@@ -14,6 +14,8 @@ import (
 //                          appendAckFrame is exactly `seen`; wire-level agreement of appendAckFrame/consumeAckFrame is C28:
 //                          a decode(encode(seen)) harness was tried here and is too hard for the solvers)
 //   VerifC25_acks_history  (B) arrivals and ACK-of-ACKs from the zero ackState, Inv_p along the history
+//   VerifC25_ack_wire      (zz_verif_c25c_test.go) the frame appendAckFrame actually writes, for 1..4 ranges and every amount of
+//                          remaining packet space, decoded by consumeAckFrame, acknowledges only members of the set
 // Sender side (loss.go, sent_packet_list.go):
 //   VerifC25_ackrange_step (I) one receiveAckRange on a hand-built sent-packet list incl. Unsent placeholders
 //   VerifC25_loss_history  (B) packetSent / skipNumber / ACK frames (<= 2 ranges) from init()
